@@ -271,6 +271,14 @@ func CheckC04(run *Run) {
 	if run.Tier == "thorough" {
 		nRandom = 60
 	}
+	// seeded random schemas: every kind and cardinality, nesting, maps, oneofs, one codec feature per message
+	nSchemas := 3
+	if run.Tier == "thorough" {
+		nSchemas = 40
+	}
+	for _, r := range RandomSchemas(rand.New(rand.NewSource(run.Seed+4040)), nSchemas, true) {
+		reqs = append(reqs, CloneRenamed(r, "c4"+r.ID))
+	}
 	s := NewSession(run, reqs)
 	s.BuildRuntime(false)
 	pluginParity(run, s, reqs)
